@@ -219,8 +219,12 @@ def compile_col_expr(
         return compiled
 
     elif isinstance(expr, LiteralCol):
+        val = expr.val
+        if isinstance(val, int) and not isinstance(val, bool) and types.without_const(expr.dtype()).is_float():
+            # e.g. `lit(3, Float())`: polars would infer an integer literal
+            val = float(val)
         return pl.lit(
-            expr.val,
+            val,
             # only give the type explicitly if we can still be sure about it
             # in nested lists with ints / floats mixed we do not give guarantees
             dtype=expr.dtype().to_polars() if types.is_subtype(expr.dtype()) else None,
